@@ -150,6 +150,9 @@ pub fn run_case(base: &Base, c: &HandleCase) -> Option<(String, String)> {
                         }
                         _ => unreachable!(),
                     };
+                    // a refusal must have no effect at all (C10): snapshot before an out-of-range seek
+                    let out_of_range = target < 0 || target > len;
+                    let before = if out_of_range { Some((live.mem.snapshot(), live.comp.entry(PATH).map(|e| e.len()).unwrap_or(u64::MAX))) } else { None };
                     match s.seek(sf) {
                         Ok(p) => {
                             if target < 0 || target > len {
@@ -171,6 +174,15 @@ pub fn run_case(base: &Base, c: &HandleCase) -> Option<(String, String)> {
                             let p = s.stream_position().map_err(|e| bad(format!("stream_position failed: {}", e)))?;
                             if p != pos {
                                 return Err(("refusal".into(), format!("call {} {:?}: refused seek moved the position from {} to {}", i, call, pos, p)));
+                            }
+                            if let Some((img, elen)) = &before {
+                                if live.mem.snapshot() != *img {
+                                    return Err(("refusal".into(), format!("call {} {:?}: refused seek changed the underlying bytes", i, call)));
+                                }
+                                let now = live.comp.entry(PATH).map(|e| e.len()).unwrap_or(u64::MAX);
+                                if now != *elen {
+                                    return Err(("refusal".into(), format!("call {} {:?}: refused seek changed entry().len() from {} to {}", i, call, elen, now)));
+                                }
                             }
                         }
                     }
